@@ -1074,15 +1074,17 @@ def sh_prefixsid(tlv, th):
             n = ctx.pick('n', (0, 1, 2, 7, 8, 9, 14))
             return Shape([3] + be(n, 2) + sym(ctx, 'v', n))
         if tlv in (5, 6):
-            which = ctx.pick('which', ('empty', 'reserved-only', 'sid-info', 'sid-info+structure', 'sid-info+unknown-sub-sub', 'sid-info-short', 'generic-sub', 'sub-free'))
+            which = ctx.pick('which', ('empty', 'reserved-only', 'sid-info', 'sid-info+structure', 'sid-info+two-structures', 'sid-info+unknown-sub-sub', 'sid-info-short', 'generic-sub', 'sub-free'))
             if which == 'empty':
                 body = []
             elif which == 'reserved-only':
                 body = sym(ctx, 'rsv', 1)
-            elif which in ('sid-info', 'sid-info+structure', 'sid-info+unknown-sub-sub', 'sid-info-short'):
+            elif which in ('sid-info', 'sid-info+structure', 'sid-info+two-structures', 'sid-info+unknown-sub-sub', 'sid-info-short'):
                 info = sym(ctx, 'r1', 1) + sym(ctx, 'sid', 16) + sym(ctx, 'fl', 1) + sym(ctx, 'beh', 2) + sym(ctx, 'r2', 1)
                 if which == 'sid-info+structure':
                     info += [1, 0, 6] + sym(ctx, 'st', 6)
+                if which == 'sid-info+two-structures':
+                    info += [1, 0, 6] + sym(ctx, 'st', 6) + [1, 0, 6] + sym(ctx, 'st2', 6)
                 if which == 'sid-info+unknown-sub-sub':
                     info += [9, 0, 2] + sym(ctx, 'uu', 2)      # a sub-sub-TLV type nobody registered
                 if which == 'sid-info-short':
